@@ -351,6 +351,21 @@ class Run(object):
                 tmp = self.ffi.new('%s[%d]' % (KINDS[kind][0], cnt), items)
             value = tmp
             self.out.probe('slice_assign_from_cdata_array')
+        elif src == 'bytes' and kind == 'char' and fault == 'none' and ok_bounds and need >= 2 and need % 2 == 0 \
+                and cnt == need and r % 3 == 0:
+            # a buffer object of the right size in BYTES but holding need/2 two-byte items: not j-i values
+            import array
+            wide = array.array('H', b''.join(vals))
+            exc = None
+            try:
+                v['cd'][i:j] = wide
+            except (ValueError, TypeError) as e:
+                exc = e
+            if exc is None:
+                raise Violation('C16.3', "x[%d:%d] = array('H') of %d items (%d bytes) was accepted: a slice of %d "
+                                'items needs exactly %d values' % (i, j, need // 2, need, need, need))
+            self.out.fault('buffer_source_with_wide_items_rejected')
+            return
         elif src == 'bytes' and kind == 'char' and fault == 'none':
             used = 'bytes'
             value = b''.join(vals)
